@@ -17,7 +17,9 @@ META = {
     "design_ref": "DESIGN.md §5 C23",
     "text": "Theorems: soundness and completeness of the 3-valued encoding w.r.t. Clark's completion of a LogicDAG; successive "
             "k-best solutions are pairwise exclusive cubes that entail the query; sum of cube probabilities <= P(q), = P(q) when "
-            "the solver reports unsatisfiable; every result of the evaluate loop is sound. Tie: generated evidence-free programs, "
+            "the solver reports unsatisfiable; every result of the evaluate loop is sound, with or without annotated disjunctions (weight lemma "
+            "and total weight 1 proved with the exactly-one clauses present for AD-saturated cubes, which the smart-constraint indicator "
+            "clauses enforce). Tie: generated evidence-free programs, "
             "kbest/explain results and every intermediate bound vs exact world enumeration done in the harness; every MaxSAT answer "
             "checked to be a model of the clause set it was given; model clause sets / from_partial / border values vs the real ones.",
     "note": "Trusted: Coq kernel + vm_compute; hand models (sampled correspondence); maxsatz only through the checked contract "
@@ -643,7 +645,8 @@ def cdag(nodes):
     out = []
     for t, ch in nodes:
         out.append("NAtom" if t == "atom" else ("NConj %s" % czl(ch) if t == "conj" else "NDisj %s" % czl(ch)))
-    return "[" + "; ".join(out) + "]"
+    # typed nil: a query that is deterministically true/false leaves an empty DAG, and `length []` alone is ill-typed
+    return ("[" + "; ".join(out) + "]") if out else "(@nil node)"
 
 
 def exact_weights(obs):
